@@ -99,7 +99,6 @@ structure State where
   settled : List Settle := []
   /-- ghost: bridge-call nonces whose successful execution on the external chain has been observed -/
   obsSuccess : List Nat := []
-  deriving Repr
 
 inductive Res where | ok (n : Nat) | err | panic
   deriving DecidableEq, Repr
@@ -124,12 +123,12 @@ inductive Op where
 
 /-! ## ledger -/
 
-def getBal (b : Bal) (k : Addr × Token) : Nat :=
-  match b.find? (fun e => e.1 = k) with
-  | some e => e.2
-  | none => 0
+/-- latest entry wins -/
+def getBal : Bal → Addr × Token → Nat
+  | [], _ => 0
+  | (k', v) :: rest, k => if k = k' then v else getBal rest k
 
-def setBal (b : Bal) (k : Addr × Token) (v : Nat) : Bal := (k, v) :: b.filter (fun e => e.1 ≠ k)
+def setBal (b : Bal) (k : Addr × Token) (v : Nat) : Bal := (k, v) :: b
 
 def addBal (b : Bal) (k : Addr × Token) (v : Nat) : Bal := setBal b k (getBal b k + v)
 def subBal (b : Bal) (k : Addr × Token) (v : Nat) : Bal := setBal b k (getBal b k - v)
